@@ -115,17 +115,17 @@ func (w *World) checkpointAndScan(dir string) error {
 	return w.FS.RemoveAll(dir)
 }
 
-
 // writeMarker writes marker number n: a unique key y<n> that is never deleted,
 // alternately through an ingested table (which overlaps nothing, so it goes
 // straight into the LSM) and through a committed batch. Markers are written by
 // ONE goroutine, one after the other, so marker n+1 is sequenced after marker
 // n has completed: every consistent prefix of the history (an iterator or
 // snapshot view, a checkpoint) holds exactly the markers 0..m-1 for some m.
-func (w *World) writeMarker(r *rand.Rand, n int) error {
-	key := []byte(fmt.Sprintf("y%06d", n))
+func (w *World) writeMarker(r *rand.Rand, chain, n int) error {
+	defer markerOps.Add(1)
+	key := []byte(fmt.Sprintf("y%d%06d", chain, n))
 	if n%2 == 0 {
-		path := fmt.Sprintf("ext/y-%d.sst", n)
+		path := fmt.Sprintf("ext/y%d-%d.sst", chain, n)
 		_ = w.FS.MkdirAll("ext", 0o755)
 		f, err := w.FS.Create(path, vfs.WriteCategoryUnspecified)
 		if err != nil {
@@ -150,24 +150,35 @@ func (w *World) writeMarker(r *rand.Rand, n int) error {
 
 // markersClosed checks the marker rule on the point keys of one view.
 func (w *World) markersClosed(what string, pts map[string]string) {
-	var idx []int
+	chains := map[byte][]int{}
 	for k := range pts {
-		if len(k) == 7 && k[0] == 'y' {
+		if len(k) == 8 && k[0] == 'y' {
 			n := 0
-			fmt.Sscanf(k[1:], "%d", &n)
-			idx = append(idx, n)
+			fmt.Sscanf(k[2:], "%d", &n)
+			chains[k[1]] = append(chains[k[1]], n)
 		}
 	}
-	if len(idx) == 0 {
+	if len(chains) == 0 {
 		return
 	}
-	sort.Ints(idx)
 	w.count("marker-views")
+	for c, idx := range chains {
+		w.markerChainClosed(what, c, idx)
+	}
+}
+
+func (w *World) markerChainClosed(what string, chain byte, idx []int) {
+	sort.Ints(idx)
+	if markerDebug && what == "checkpoint-iter" {
+		fmt.Printf("MARKERDBG %s chain %c: %d markers, last %d (ops so far %d)\n", what, chain, len(idx), idx[len(idx)-1], markerOps.Load())
+	}
 	for i, n := range idx {
 		if n != i {
-			w.fail("view-not-a-prefix", "%s: the view holds marker %d but not marker %d (markers are written one after the other by a single goroutine, alternately by Ingest and by Set; %d markers in the view, highest %d): the view is not a prefix of the history",
-				what, n, i, len(idx), idx[len(idx)-1])
+			w.fail("view-not-a-prefix", "%s: the view holds marker %d of chain %c but not marker %d (the markers of a chain are written one after the other by a single goroutine, alternately by Ingest and by Set; %d markers in the view, highest %d): the view is not a prefix of the history",
+				what, n, chain, i, len(idx), idx[len(idx)-1])
 			return
 		}
 	}
 }
+
+var markerDebug = false
